@@ -126,6 +126,12 @@ def rule_MP2(rep, prog):
                 for u in fn.users(x):
                     if u.op == "extractvalue" and u.d.get("idx") == [1] and c.truth.get(u.id) is True:
                         ok = True
+            extra = [i for b in path for i in fn.blocks[b].insts if i.op == "call" and i.callee in ("_dispatch_sema4_wait", "_dispatch_sema4_timedwait")
+                     and any(fn.inst_reaches(x, i) for x in cx)]
+            rep.require(rid, not (ok and extra), extra[0].loc if extra else inst.loc, fn.name, "kernel-wait-after-undo",
+                        "_dispatch_semaphore_wait_slow touches the kernel semaphore (%s) after it has given its decrement back and before reporting the timeout: this "
+                        "thread is no longer counted as a waiter, so a post it consumes there belongs to ANOTHER waiter that is still counted - that waiter is never "
+                        "released although its signal was issued" % (extra[0].callee if extra else None), sample={"path": path})
             rep.require(rid, ok, inst.loc, fn.name, "timeout-without-undo",
                         "_dispatch_semaphore_wait_slow reports a timeout on a path where the undo CAS did not succeed: the caller's decrement stays "
                         "in dsema_value and a later signal is swallowed (path %s)" % path, sample={"returns": "timeout", "path": path})
@@ -183,7 +189,7 @@ def rule_MP3(rep, prog):
         okw = bool(sts)
         for st in sts:
             v = fn.inst(st.ops[0])
-            okw = okw and v is not None and v.op == op_ and v.d.get("ty") == "i64"
+            okw = okw and v is not None and v.op == op_ and v.d.get("ty") == "i64" and v.ops[1][0] == "c" and v.ops[1][1] == 1000000000
         rep.require(rid, okw, sts[0].loc if sts else fn.file, fn.name, "deadline-truncated:%s" % fld,
                     "_dispatch_sema4_timedwait does not store %s as the full 64-bit %s of the nanosecond deadline (a narrowing cast in between): a deadline after "
                     "2038 becomes negative / wraps into the past and a long timed dispatch_semaphore_wait returns non-zero at once" % (fld, "quotient" if op_ == "udiv" else "remainder"),
@@ -273,7 +279,9 @@ def run(rep, tier="quick", srcdir=None, only=None):
         # _dispatch_time_nanoseconds_since_epoch (shared with C12)
         from dqsa import build, ir
         from . import C12
-        C12.run_epoch(rep, ir.Program(build.facts_for(C12.UNITS, mode="all", srcdir=srcdir)))
+        p12 = ir.Program(build.facts_for(C12.UNITS, mode="all", srcdir=srcdir))
+        C12.run_epoch(rep, p12)
+        C12.run_clock_ids(rep, p12, srcdir)
 
 
 MANIFEST = {
